@@ -708,7 +708,10 @@ func createConnHandler(
 			if isStreamError(outErr) {
 				return outErr
 			}
-			if sd.ClientStreams {
+			// outErr == io.EOF: the backend has ended the call, whatever the
+			// client still sends is moot. Only a reply loop that stopped for
+			// another reason waits for the request side to finish.
+			if sd.ClientStreams && outErr != io.EOF {
 				wg.Wait()
 				if isStreamError(inErr) {
 					return inErr
